@@ -692,9 +692,12 @@ class Screen(BaseScreen, RealTerminal):
                 output.extend(("\x08" * back, ias))  # pylint: disable=used-before-assignment  # defined in `if row`
 
                 if encoding != "utf-8":
-                    if cs is None:
+                    # the inserted character has its own character set (cs is that of the run drawn last)
+                    if cs == "U" and insertcs != "U":
+                        output.append(escape.IBMPC_OFF)
+                    if insertcs is None:
                         icss = escape.SI
-                    elif cs == "U":
+                    elif insertcs == "U":
                         icss = escape.IBMPC_ON
                     else:
                         icss = escape.SO
@@ -706,7 +709,7 @@ class Screen(BaseScreen, RealTerminal):
                 else:
                     output += [f"{escape.ESC}[{str_util.calc_width(inserttext, 0, len(inserttext))}@", inserttext]
 
-                if encoding != "utf-8" and cs == "U":
+                if encoding != "utf-8" and insertcs == "U":
                     output.append(escape.IBMPC_OFF)
 
             if whitespace_at_end:
